@@ -421,6 +421,10 @@ func runC19(w *fw.W) {
 			{"conversions and arithmetic on a descendant, then on plain values",
 				[]string{"DI := Int.bear({tag: m{\"i\"}})\nd := DI.new(5)\n[(d + 1).tag, (d * 2).tag, d.S, d.F, -d].p\nDS := Str.bear({tag: m{\"s\"}})\n[(DS.new(\"a\") + \"b\").tag, DS.new(\"a\").uc.tag, DS.new(\"ab\").rev.tag].p"},
 				"[(5 + 1).try.tag.err.type, (5 * 2).try.tag.err.type, (\"a\" + \"b\").try.tag.err.type, \"a\".uc.try.tag.err.type].p\n\"ab\".rev.tag"},
+			{"names first used in another order, then == over containers whose elements' own == prints",
+				[]string{"{qzeta_w: 1, qalpha_w: 2, qmid_w: 3}.p\n%{\"qz2\": 1, \"qa2\": 2}.p\n['qomega_w, 'qbeta_w].p", "{qomega_w: 0}.qbeta_w"},
+				"T := {'==: m{|o| .n.p; true}}\nU := {'==: m{|o| .n.p; .n != 3}}\nx := {qalpha_w: T.bear({n: 1}), qmid_w: T.bear({n: 2}), qzeta_w: T.bear({n: 3}), qbeta_w: T.bear({n: 4}), qomega_w: T.bear({n: 5})}\n(x == {**x}).p\n" +
+					"m := %{\"qa2\": T.bear({n: 6}), \"qz2\": T.bear({n: 7})}\n(m == %{**m}).p\nu := {qalpha_w: U.bear({n: 1}), qmid_w: U.bear({n: 2}), qzeta_w: U.bear({n: 3}), qbeta_w: U.bear({n: 4}), qomega_w: U.bear({n: 5})}\n(u == {**u}).p\n[x.keys, u.S.len, m.keys].p"},
 			{"a function literal with a default evaluated twice in different scopes",
 				[]string{"mk := {|g| {|nm, hello: g| hello + nm}}\nmk(\"Hi \")(\"A\").p"}, "mk := {|g| {|nm, hello: g| hello + nm}}\nmk(\"Yo \")(\"B\").p"},
 		}
